@@ -23,6 +23,7 @@ T7 = [
 T8 = [
     ("dyn_read_a", r"&'a mut dyn (?:io::|std::io::)?Read\b", "DynRead<'a>", "trait object replaced by the opaque shim DynRead (same ghost state; dispatch is irrelevant to the contracts)"),
     ("dyn_read", r"&mut dyn (?:io::|std::io::)?Read\b", "DynRead<'_>", "same"),
+    ("std_io", r"(?<![\w:])(?:::)?std::io::(Take|Read|Write|Seek|Result|Error|ErrorKind)\b", r"io::\1", "absolute std::io path resolves to the io shim module"),
 ]
 def apply_t8(text, where, log):
     for name, rx, rep, note in T8:
@@ -65,6 +66,7 @@ class FnSpec:
         self.nobody = False
         self.opens = []
         self.vis = None
+        self.sigsuffix = None
 
 _clause_start = re.compile(r"^(\s*)(\[[^\]]*\]\s*)?(.*)$")
 
@@ -109,6 +111,8 @@ def parse_vc(ident, text):
                 sec = None
             elif key == "vis":
                 fs.vis = val; sec = None
+            elif key == "sigsuffix":
+                fs.sigsuffix = val; sec = None
             elif key == "rewrite":
                 # rewrite: /regex/ => replacement
                 m = re.match(r"/(.*)/\s*=>\s*(.*)$", val)
@@ -330,7 +334,7 @@ def add_item(unit, file, path, opts=()):
     it = rsscan.find_item(ft, path)
     where = "%s::%s" % (file, "/".join(path))
     orig = rsscan.text(it.toks)
-    toks = rsscan.resolve_cfg_and_attrs(it.toks, unit.log, where)
+    toks = rsscan.resolve_cfg_and_attrs(it.toks, unit.log, where, keep_debug=("keep_debug" in opts))
     toks = widen_vis(toks, unit.log, where)
     if it.kind == "struct" and "nopubfields" not in opts:
         toks = pub_fields(toks, unit.log, where)
@@ -570,6 +574,8 @@ def add_fn(unit, fs):
             clauses.append({"kind": kind, "label": label, "props": c.props or fs.props, "text": c.text.strip(), "lines": list(c.lines)})
     if fs.decreases:
         o.write("    decreases %s\n" % fs.decreases.strip(), ("clause", fs.ident, "decreases", "decreases"))
+    if fs.sigsuffix:
+        o.write("    %s\n" % fs.sigsuffix, ("tmpl", fs.ident, 0))
     # body
     body_first = o.lineno()
     o.write("{", ("src", fs.file, toks[body_open].line))
